@@ -110,7 +110,7 @@ def step (w : W) (ws : List String) : W × String :=
     | _, _ => (w, "bad-op")
   | ["failhdr"] => ({ w with s := Aggkit.Aggsender.step sizeFloat w.s .failHdr }, "ok")
   | ["failsub"] => ({ w with s := Aggkit.Aggsender.step sizeFloat w.s .failSub }, "ok")
-  | ["failrec"] => ({ w with s := Aggkit.Aggsender.step sizeFloat w.s .failRec }, "ok")
+  | "failrec" :: _ => ({ w with s := Aggkit.Aggsender.step sizeFloat w.s .failRec }, "ok")   -- [p|s]: which of the two queries fails
   | ["savefault", _] => (w, "ok")
   | ["crash"] => ({ w with s := Aggkit.Aggsender.step sizeFloat w.s .crash }, "ok")
   | ["losedb"] => ({ w with s := Aggkit.Aggsender.step sizeFloat w.s .losedb }, "ok")
@@ -133,6 +133,11 @@ def step (w : W) (ws : List String) : W × String :=
         let r := tick sizeFloat w.s epoch crash
         ({ w with s := r.1 }, tickOut w.s r crash)
     match t with
+    | "epoch?" =>
+      if !w.s.up then (w, "down")
+      else
+        let r := tickUnreadable w.s
+        ({ w with s := r.1 }, tickOut w.s r false)
     | "epoch" => go true false
     | "epoch!" => go true true
     | "status" => go false false
